@@ -87,7 +87,7 @@ pub fn configs(tier: Tier) -> Vec<Box<dyn Config>> {
         let seeds = vec![tombstone_seed(28, 20), tombstone_seed(28, 14)];
         v.push(mk::<PKey, PVal>(Plan::Zero, 30, seeds.clone(), Some(if quick { 0 } else { 1 }), tier, true, "-seeded"));
         v.push(mk::<TKey, TVal>(Plan::Zero, 30, seeds, Some(if quick { 0 } else { 1 }), tier, true, "-seeded"));
-        let u = if quick { 5 } else { 9 };
+        let u = if quick { 6 } else { 9 };
         v.push(mk::<TKey, TVal>(Plan::Zero, u, vec![vec![]], None, tier, false, ""));
         v.push(mk::<PKey, PVal>(Plan::Zero, u, vec![vec![]], None, tier, false, ""));
         v.push(mk::<TKey, TVal>(Plan::Seq, if quick { 4 } else { 6 }, vec![vec![]], None, tier, false, ""));
